@@ -33,10 +33,33 @@ func genC03(t *rapid.T) *c03Case {
 		for i := range c.Prog.Transforms {
 			c.Prog.Transforms[i].Mode1415 = false // modes 14/15 are not defined by the specification (C05 still feeds them)
 		}
-		if tierThorough() && rapid.IntRange(0, 49).Draw(t, "big") == 0 {
-			// above the decoder's 100,000-pixel threshold for its parallel inverse transforms
-			c.Prog.W = rapid.IntRange(320, 400).Draw(t, "bigW")
-			c.Prog.H = rapid.IntRange(100000/c.Prog.W+1, 100000/c.Prog.W+40).Draw(t, "bigH")
+		bigEvery := 120
+		if tierThorough() {
+			bigEvery = 50
+		}
+		if rapid.IntRange(0, bigEvery-1).Draw(t, "big") == 0 {
+			// above the decoder's 100,000-pixel threshold for its parallel inverse transforms; ordinary
+			// and extreme shapes (a picture shorter than one transform tile, or narrower)
+			switch rapid.IntRange(0, 3).Draw(t, "bigShape") {
+			case 0:
+				c.Prog.W = rapid.IntRange(1200, 16384).Draw(t, "bigWideW")
+				c.Prog.H = 100000/c.Prog.W + rapid.IntRange(1, 3).Draw(t, "bigWideH")
+			case 1:
+				c.Prog.H = rapid.IntRange(1200, 16384).Draw(t, "bigTallH")
+				c.Prog.W = 100000/c.Prog.H + rapid.IntRange(1, 3).Draw(t, "bigTallW")
+			default:
+				c.Prog.W = rapid.IntRange(320, 400).Draw(t, "bigW")
+				c.Prog.H = rapid.IntRange(100000/c.Prog.W+1, 100000/c.Prog.W+40).Draw(t, "bigH")
+			}
+		} else if rapid.IntRange(0, 79).Draw(t, "thin") == 0 {
+			// the format's largest dimensions (14 bits + 1) on one side
+			long := rapid.SampledFrom([]int{16384, 16384, 16383, 8193, 4097, 2049}).Draw(t, "thinLong")
+			short := rapid.IntRange(1, 3).Draw(t, "thinShort")
+			if rapid.Bool().Draw(t, "thinTall") {
+				c.Prog.W, c.Prog.H = short, long
+			} else {
+				c.Prog.W, c.Prog.H = long, short
+			}
 		}
 	} else {
 		c.Img = gen.DrawImg(t, gen.ImgCfg{MaxSide: max + 20, BigChance: 3, BigSide: 200, Kinds: []string{"nrgba"}, Places: []string{"tight"}})
@@ -75,6 +98,10 @@ func checkC03(c *c03Case, o *core.Obs) error {
 		sig = fmt.Sprintf("gen|t%s|c%d|m%d g%d|%s|%v", tr, p.CacheBits, p.MetaBits, p.Groups, p.CodeStyle, feats)
 		o.SampleJSON = map[string]any{"source": "gen", "prog": p.Summary(), "stream_bytes": len(bs), "features": stat}
 		o.Labelf("transforms=%d", len(p.Transforms))
+		o.Labelf("pixels>=100000=%v", p.W*p.H >= 100000)
+		if p.W == 16384 || p.H == 16384 {
+			o.Label("side=16384")
+		}
 		for _, f := range feats {
 			o.Label("feature=" + f)
 		}
